@@ -155,6 +155,10 @@ RULE = ("a step waiting out a retry delay D=8 s and a step whose wait_for_event 
         "persisted ticks + restart on the surviving store x all orders of idle-timer, release and retry / timeout timer firings up to "
         "the horizon (every timer below 1000 s fired), plus programs in which one tick keeps the loop busy until after the pending timer's due time; at the horizon the handler must be completed with the retried / timed-out "
         "result; non-trivial = at least one deviation or a restart")
+from vmc.tables import _ROUND6 as _R6  # noqa: E402
+
+RULE += _R6["C14"]
+
 
 
 def run(tier: str, seed: int) -> Any:
